@@ -8,6 +8,7 @@
 (D) entity level: the message entity's toProtocolTreeNode -> fromProtocolTreeNode keeps payload and meta data
 """
 import os
+import json
 import struct
 
 from .. import compat  # noqa: F401
@@ -494,6 +495,29 @@ def run_case(case):
             # constructing the attribute objects is part of composing a message
             out.fail("compose", "compose:raises:%s" % type(e).__name__, {"error": repr(e)[:300], "kinds": kinds})
             return out
+        if case.get("mention_edit"):
+            # the application adds a mention to the reply it has composed, the way lists are edited: through the list the context
+            # hands out (ctx.mentioned_jid.append(jid)).  What is serialised afterwards carries it
+            import copy
+            spec = copy.deepcopy(spec)
+            edited = 0
+            for kind in [k for k in spec if k in KINDS]:
+                if not isinstance(spec[kind], dict):
+                    continue
+                in_dm = isinstance(spec[kind].get("dm"), dict) and isinstance(spec[kind]["dm"].get("context_info"), dict)
+                cspec = spec[kind]["dm"]["context_info"] if in_dm else spec[kind].get("context_info")
+                if not isinstance(cspec, dict) or not isinstance(cspec.get("mentioned_jid"), list):
+                    continue
+                try:
+                    holder = getattr(attrs, kind)
+                    lst = (holder.downloadablemedia_attributes if in_dm else holder).context_info.mentioned_jid
+                except Exception:
+                    continue
+                if isinstance(lst, list):
+                    lst.append("4915100000077@s.whatsapp.net")
+                    cspec["mentioned_jid"] = cspec["mentioned_jid"] + ["4915100000077@s.whatsapp.net"]
+                    edited += 1
+            out.label("mention_appended_through_the_accessor" if edited else "mention_edit_without_mentions_list")
         if case.get("log"):
             # applications and the layers' own loggers print messages between composing and sending: looking at a message does
             # not change it
@@ -969,6 +993,8 @@ def case_strategy(sub):
             case["meta"] = meta
             if draw(st.integers(0, 2)) == 0:
                 case["earlier_composed"] = draw(message_strategy(0))
+            if draw(st.integers(0, 3)) == 0:
+                case["mention_edit"] = True
             if draw(st.booleans()):
                 case["edit"] = draw(message_strategy(0))
                 case["edit_copy"] = draw(st.booleans())
@@ -1007,6 +1033,8 @@ def _enum_each_kind():
     ]
     for i, s in enumerate(specs):
         yield {"sub": "attrs", "spec": s, "meta": {"incoming": True}, "edit": specs[(i + 1) % len(specs)], "edit_copy": bool(i % 2)}
+        if "mentioned_jid" in json.dumps(s):
+            yield {"sub": "attrs", "spec": s, "meta": {"incoming": False}, "mention_edit": True}
         yield {"sub": "peer", "spec": s}
     yield {"sub": "peer", "spec": specs[-1], "omit": [["protocol", "type"]]}
     # a context whose only fields are zero / empty ones the sender set on purpose (first edit, not revoked, an empty quote id)
@@ -1069,3 +1097,4 @@ def plan(tier):
     }
 
 RULE += (' Also: an earlier message composed in the same process and edited in place; message keys whose participant equals the chat jid; attributes composed from a file with any subset of values stated (from_file); values the sender set explicitly (zero, empty, false) must not come back absent.')
+RULE += (" A composed message may get a mention appended through the list its context hands out (mention_edit) before it is serialised.")
